@@ -875,10 +875,19 @@ func main() {
 	}
 
 	// ---- 2. ServeHTTP with a recording transport ----
+	// lookupOf, when set, supplies the Lookup function of the proxy (the real routing table);
+	// otherwise the target is handed over directly
+	var lookupOf func(o *optsT) func(*http.Request) *route.Target
 	addFwd := func(class string, q *reqT, o *optsT, rs *respT) {
 		raw := q.wire(r)
 		tgt := mkTarget(o)
-		res, err := serve(raw, func(*http.Request) *route.Target { return tgt }, config.Proxy{}, rs)
+		lookup := func(*http.Request) *route.Target { return tgt }
+		if lookupOf != nil {
+			if lookup = lookupOf(o); lookup == nil {
+				return
+			}
+		}
+		res, err := serve(raw, lookup, config.Proxy{}, rs)
 		if err != nil {
 			run.Exclude("net/http rejects the request before fabio sees it")
 			if debug {
@@ -907,6 +916,81 @@ func main() {
 		q := genReq(r, false)
 		o := genOpts(r, q.Target)
 		addFwd("forward", q, o, genResp(r, q.Method, false))
+	}
+	// the same through the REAL routing table (route.NewTable + Table.Lookup as main.go wires it):
+	// what the lookup does to the request on its way is part of what the upstream receives.
+	// Hosts in upper / mixed case, with the default port of the connection, another port, IPv6
+	// literals; a host route and / or the catch-all; glob matching on and off.  Own random stream.
+	{
+		saved := r
+		r = rand.New(rand.NewSource(run.Seed*7919 + 7))
+		tblHosts := []string{"shop.example.com", "Shop.Example.COM", "SHOP.EXAMPLE.COM:80", "shop.example.com:80", "shop.example.com:8080",
+			"shop.example.com:443", "Other.Example.ORG", "[::1]:80", "[2001:DB8::1]", "xn--Caf-dma.example", "shop.example.com."}
+		gc := route.NewGlobCache(64)
+		optOK := func(v string) bool {
+			return !strings.ContainsAny(v, " \t\"\\") && !strings.ContainsFunc(v, func(c rune) bool { return c < 0x21 || c > 0x7e })
+		}
+		nTbl := run.Scale(220, 4000)
+		for i := 0; i < nTbl; i++ {
+			q := genReq(r, false)
+			if q.Proto != "HTTP/1.0" || q.Host != "" {
+				q.Host = tblHosts[r.Intn(len(tblHosts))]
+			}
+			o := genOpts(r, q.Target)
+			if !optOK(o.Strip) || !optOK(o.Prepend) || !optOK(o.HostOpt) || !optOK(o.TQuery) {
+				o.Strip, o.Prepend = "", ""
+				if !optOK(o.HostOpt) {
+					o.HostOpt = ""
+				}
+				if !optOK(o.TQuery) {
+					o.TQuery = ""
+				}
+			}
+			globOff := r.Intn(3) == 0
+			hostRoute, catchAll := r.Intn(3) != 0, r.Intn(3) != 0
+			if !hostRoute && !catchAll {
+				catchAll = true
+			}
+			lookupOf = func(o *optsT) func(*http.Request) *route.Target {
+				var kv []string
+				for _, e := range [][2]string{{"strip", o.Strip}, {"prepend", o.Prepend}, {"host", o.HostOpt}} {
+					if e[1] != "" {
+						kv = append(kv, e[0]+"="+e[1])
+					}
+				}
+				u := o.TScheme + "://" + o.THost + "/"
+				if o.TQuery != "" {
+					u += "?" + o.TQuery
+				}
+				opts := ""
+				if len(kv) > 0 {
+					opts = " opts \"" + strings.Join(kv, " ") + "\""
+				}
+				text := ""
+				if hostRoute {
+					text += "route add svc shop.example.com/ " + u + opts + "\nroute add svc other.example.org/ " + u + opts + "\n"
+				}
+				if catchAll {
+					text += "route add svc / " + u + opts + "\n"
+				}
+				tbl, err := route.NewTable(bytes.NewBufferString(text))
+				if err != nil {
+					run.Exclude("route text of the through-table class rejected")
+					return nil
+				}
+				return func(req *http.Request) *route.Target {
+					return tbl.Lookup(req, "", route.Picker["rr"], route.Matcher["prefix"], gc, globOff)
+				}
+			}
+			// a host the table does not know and no catch-all: the no-route answer, not this class's subject
+			h := strings.ToLower(q.Host)
+			known := strings.HasPrefix(h, "shop.example.com") && !strings.HasSuffix(h, ".") && !strings.HasSuffix(h, ":8080") && !strings.HasSuffix(h, ":443") || h == "other.example.org"
+			if catchAll || (hostRoute && known) {
+				addFwd("forward-through-table", q, o, genResp(r, q.Method, false))
+			}
+			lookupOf = nil
+		}
+		r = saved
 	}
 	// directed: every option combination on a fixed set of paths
 	dirPaths := []string{"/strip/a%2Fb", "/strip/a/b", "/strip", "/strip/", "/stripped/x", "/strip%2Fa", "/a%2Fb/strip", "/", "/strip/%41", "/strip/a^b", "/str%69p/x", "/strip/x;y=1", "/strip//x", "/strip/../y", "/a^b%2Fc", "/caf\xc3\xa9"}
